@@ -112,6 +112,8 @@ pub enum Pat {
     Ctor(usize, usize, Box<Pat>),
     /// `(p1; p2)`: both observe the same value
     Alias(Box<Pat>, Box<Pat>),
+    /// `(/l = p)`: p observes the component named `l` (position, whole product type) of the bindee
+    Project(String, usize, VT, Box<Pat>),
 }
 
 #[derive(Clone, Debug, PartialEq, Eq, Hash)]
@@ -294,6 +296,7 @@ impl<'a> Machine<'a> {
                 | Some(e) => self.bind(b, v, &e)?,
                 | None => None,
             },
+            | (Pat::Project(_, k, _, p), RV::Tuple(vs)) if *k < vs.len() => self.bind(p, &vs[*k], env)?,
             | (p, v) => return Err(Stop::Stuck(format!("pattern {:?} against value {:?}", p, v))),
         })
     }
@@ -507,7 +510,7 @@ impl Pat {
             | Pat::Wild(_) | Pat::Unit => {}
             | Pat::Var(x, t) => out.push((*x, t.clone())),
             | Pat::Tuple(ps) => ps.iter().for_each(|p| p.binders(out)),
-            | Pat::Named(_, p) | Pat::Ctor(_, _, p) => p.binders(out),
+            | Pat::Named(_, p) | Pat::Ctor(_, _, p) | Pat::Project(_, _, _, p) => p.binders(out),
             | Pat::Alias(a, b) => {
                 a.binders(out);
                 b.binders(out);
